@@ -760,7 +760,8 @@ class Order(Family):
     rule = ('every sequence over the 24 syntactic section ids (9 legal + 15 well-formed but illegal level/name '
             'combinations) up to a bounded length, each rendered with minimal valid options/content; plus headers the '
             'grammar rejects; every sequence again with tolerated blank lines before the last (or every) header; '
-            'non-trivial = length >= 2; distinct by file bytes')
+            'histories of 2-4 files read one after the other in one process (the verdict on the last one is compared); '
+            'non-trivial = length >= 2; distinct by id sequence, blank-line pattern and history')
 
     def cases(self, tier, rng, prop_id):
         import itertools
@@ -795,6 +796,18 @@ class Order(Family):
                        blanks=[''] + [rng.choice(BLANKS) if rng.random() < 0.5 else '' for _ in seq[1:]])
         for h in ['#....meta: length=2\nx\n', '#.Change:\n', '#.change\n', '.change:\n', '#.changes:\n', '# .change:\n']:
             yield dict(kind='bad-header', ids=['diffx'], extra=h)
+        # histories: several files read one after the other IN ONE PROCESS (the case carries the whole history, so a replay
+        # reproduces it): what an earlier file made the reader do must not change the verdict on a later one
+        for i in range(150 if tier == 'quick' else 3000):
+            hist = []
+            for _ in range(rng.randint(2, 4)):
+                seq = ['diffx']
+                for _ in range(rng.randint(1, 8)):
+                    seq.append(rng.choice(spec.MAY_FOLLOW[seq[-1]]))
+                if rng.random() < 0.6:
+                    seq.append(rng.choice(IDS24))
+                hist.append(seq)
+            yield dict(kind='history', ids=hist[-1], history=hist)
 
     def _data(self, c):
         blanks = c.get('blanks') or [''] * len(c['ids'])
@@ -802,6 +815,10 @@ class Order(Family):
 
     def _impl(self, c):
         if '_impl' not in c:
+            if c['kind'] == 'history':
+                # all but the last file are read first, in this same process; the observation is the last file's
+                for seq in c['history'][:-1]:
+                    sl.run_reader(self._data(dict(ids=seq)))
             data = self._data(c)
             c['_impl'] = (data,) + sl.run_reader(data)
         return c['_impl']
@@ -815,6 +832,9 @@ class Order(Family):
 
     def normalize_model(self, line):
         return sl.collapse_exc(line)
+
+    def key(self, c):
+        return json.dumps([c['kind'], c.get('history') or c['ids'], c.get('blanks'), c.get('extra')])
 
     def nontrivial(self, c):
         return len(c['ids']) >= 2
